@@ -29,15 +29,41 @@ EM_RELTOL = 1e-8
 
 
 # ---------------------------------------------------------------- cases
+EXOTIC_P = 0.4     # fraction of tree-sequence-level inputs that get gen.exotic decorations
+
+
+def decorate(rng, ts, force=False):
+    """valid-but-unusual decorations that must not matter to the EP code (gen.exotic): extra node
+    flag bits, renumbering of ALL nodes, mutations above local roots (mutation_edges == NULL),
+    mutation-free sites, unknown mutation times, arbitrary allele states, populations.
+    Returns (ts, applied kinds)"""
+    if not force and rng.random() >= EXOTIC_P:
+        return ts, []
+    ts2, applied = gen.exotic(rng, ts, p=0.35)
+    if not applied:      # make sure the selected fraction really is decorated
+        k = rng.choice(["permute_nodes", "root_mutations", "extra_flags"])
+        ts2, applied = gen.exotic(rng, ts, kinds=[k], p=1.0)
+    return ts2, applied
+
+
 def make_ts(rng, kind=None):
     """small tree sequence; kinds: plain haploid, diploid individuals (unphased singletons
-    possible), historical samples, internal samples, star"""
+    possible), historical samples, internal samples, star, unary (chain of locally unary nodes
+    above a local root; needs allow_unary)"""
     kind = kind or rng.choice(["plain", "diploid", "diploid", "diploid", "historical", "internal",
-                               "dip-hist", "dip-internal", "star"])
+                               "dip-hist", "dip-internal", "star", "unary"])
     if kind == "star":
         return star_ts(rng), kind
     if kind == "star-big":   # many capped visits of one node: drives scale below TINY mid-loop
         return star_ts(rng, n=rng.randint(25, 60), L=1000, trees=1, nmut=rng.randint(300, 600)), kind
+    if kind == "unary":
+        for _ in range(6):
+            base = gen.sim_ts(rng, n=rng.randint(3, 5), L=rng.choice([20, 100]), rec=rng.choice([2.0, 10.0]) / 100,
+                              multimerger=False, historical=False, mu=rng.choice([1.0, 3.0]) / 20)
+            ts = gen.unary_chain_ts(rng, base)
+            if ts is not None:
+                return ts, kind
+        return base, "plain"
     ploidy = 2 if kind.startswith("dip") else 1
     n = rng.randint(2, 5) if ploidy == 1 else rng.randint(1, 3)
     L = rng.choice([5, 20, 100])
@@ -88,21 +114,70 @@ def make_opts(rng, ts=None, small_shape=None):
     }
 
 
-def make_case(rng, kind=None, small_shape=None):
+def make_case(rng, kind=None, small_shape=None, exotic=None):
     ts, kind = make_ts(rng, kind)
     opts = make_opts(rng, ts, small_shape)
     if kind == "star-big":
         opts.update(max_shape=rng.choice([1.0001, 1.001, 1.01, 1.1]), mutation_rate=1e-2,
                     iterations=rng.choice([1, 2]), regularise=rng.random() < 0.5)
-    if kind in ("star", "star-big", "plain", "historical", "internal", "dip-hist"):
+    if kind in ("star", "star-big", "plain", "historical", "internal", "dip-hist", "unary"):
         opts["singletons_phased"] = True   # singleton blocking needs contemporary diploid individuals
     elif rng.random() < 0.8:
         opts["singletons_phased"] = False
-    return {"ts": gen.ts_tables_dict(ts), "kind": kind, "opts": opts}
+    if kind == "unary":
+        opts["allow_unary"] = True
+    applied = []
+    if exotic is None or exotic:
+        ts, applied = decorate(rng, ts, force=bool(exotic))
+    return {"ts": ts_dict(ts_of(ts_dict(ts))), "kind": kind, "opts": opts, "exotic": applied}   # canonical row order
+
+
+def ts_dict(ts):
+    """gen.ts_tables_dict plus what the exotic decorations add (populations, allele states,
+    known/unknown mutation times), so that a replayed case is the same input"""
+    import tskit
+    d = gen.ts_tables_dict(ts)
+    d["nodes_population"] = [int(x) for x in ts.nodes_population]
+    d["num_populations"] = int(ts.num_populations)
+    d["site_states"] = [s.ancestral_state for s in ts.sites()]
+    d["mut_states"] = [m.derived_state for m in ts.mutations()]
+    d["mut_times"] = [None if tskit.is_unknown_time(m.time) else float(m.time) for m in ts.mutations()]
+    return d
+
+
+def ts_of(d):
+    import tskit
+    ts = gen.ts_from_dict(d)
+    if "site_states" not in d:
+        return ts
+    t = ts.dump_tables()
+    # gen.ts_from_dict sorts: sites by position (ours are already), mutations keep (site, row) order
+    assert [float(x) for x in t.sites.position] == d["sites"]
+    t.sites.packset_ancestral_state(d["site_states"])
+    # the sort may reorder the mutations of one site (unknown times: by node time): match rows by (site, node)
+    pool = {}
+    for (si, u), st, tm in zip(d["mutations"], d["mut_states"], d["mut_times"]):
+        pool.setdefault((si, u), []).append((st, tm))
+    states, times = [], []
+    for si, u in zip(t.mutations.site, t.mutations.node):
+        st, tm = pool[(int(si), int(u))].pop(0)
+        states.append(st)
+        times.append(tskit.UNKNOWN_TIME if tm is None else tm)
+    t.mutations.packset_derived_state(states)
+    t.mutations.time = np.array(times)
+    t.sort()
+    t.build_index()
+    t.compute_mutation_parents()
+    if d["num_populations"]:
+        t.populations.clear()
+        for _ in range(d["num_populations"]):
+            t.populations.add_row()
+        t.nodes.population = np.array(d["nodes_population"], dtype=np.int32)
+    return t.tree_sequence()
 
 
 def case_ts(case):
-    return gen.ts_from_dict(case["ts"])
+    return ts_of(case["ts"])
 
 
 # ---------------------------------------------------------------- recording a run
